@@ -179,9 +179,29 @@ BuildOps(x, idx, nxt, rev) ==
                      ELSE LET sub == BuildOps(c, n, n + 1, rev)
                           IN Go(j + 1, sub.nxt, acc \o <<[op |-> "add_child", p |-> idx, l |-> order[j] - 1, a |-> c.a]>> \o sub.ops)
          IN Go(1, nxt, <<>>)
+\* "low": a child gets a smaller arena index than its parent (index reuse after a deletion): a dummy X is added at the root
+\* slot of the second child, the first child A (a decision) is added, X is removed, and A's subtree is built next, so A's first
+\* child reuses X's index.  Applies when the root's first existing child is a decision and K = 2.
+ScriptLow(x, K) ==
+    LET a == x.kids[1]
+        rootop == [op |-> "from_aff", p |-> 0, l |-> 0, a |-> x.a]
+        dummy == [op |-> "add_child", p |-> 0, l |-> 1, a |-> a.a]
+        addA == [op |-> "add_child", p |-> 0, l |-> 0, a |-> a.a]
+        rmX == [op |-> "remove_child", p |-> 0, l |-> 1, a |-> a.a]
+        \* A has index 2; its subtree is built with fresh indices 1 (reused), 3, 4, ...: build with nxt = 3 and rename the first created index
+        subA == BuildOps(a, 2, 3, FALSE)
+        \* the first add_child of subA creates index 3 in the renaming-free numbering; in the arena it gets index 1 and all later ones shift down by one
+        Ren(i) == IF i = 3 THEN 1 ELSE IF i > 3 THEN i - 1 ELSE i
+        opsA == [j \in 1..Len(subA.ops) |-> [subA.ops[j] EXCEPT !.p = Ren(subA.ops[j].p)]]
+        b == x.kids[2]
+        nB == subA.nxt - 1
+        subB == IF b.t = "M" THEN <<>>
+                ELSE <<[op |-> "add_child", p |-> 0, l |-> 1, a |-> b.a]>> \o BuildOps(b, nB, nB + 1, FALSE).ops
+    IN <<rootop, dummy, addA, rmX>> \o opsA \o subB
 ScriptOf(x, K, layout) ==
     LET base == <<[op |-> "from_aff", p |-> 0, l |-> 0, a |-> x.a]>> \o BuildOps(x, 0, 1, layout = "rev").ops
-    IN IF layout # "hole" \/ Len(base) < 2 THEN base
+    IN IF layout = "low" /\ K = 2 /\ x.t = "D" /\ x.kids[1].t = "D" /\ (\E j \in 1..2 : x.kids[1].kids[j].t # "M") THEN ScriptLow(x, K)
+       ELSE IF layout # "hole" \/ Len(base) < 2 THEN base
        ELSE \* after the second op (first child, index 1) add a dummy below it; remove the dummy at the end
             LET d == [op |-> "add_child", p |-> 1, l |-> 0, a |-> base[2].a] IN
             IF x.kids[1].t = "D" \/ (x.kids[1].t = "M" /\ x.kids[2].t = "D") THEN base       \* first child must be a terminal
